@@ -675,7 +675,7 @@ def run_check(prop, tier, only, keep, seed):
         raise SystemExit("no harness selected")
     rnd = random.Random(seed)
     rnd.shuffle(harnesses)
-    harnesses.sort(key=lambda h: -h.mem)       # big jobs first
+    harnesses.sort(key=lambda h: (-h.timeout, -h.mem))       # longest (then biggest) jobs first
 
     scratch = SCRATCH_ROOT / ("verif-%s-%d" % (prop, os.getpid()))
     if scratch.exists():
